@@ -123,6 +123,11 @@ func (b *batchedEvents) UnmarshalMsg(bts []byte) (o []byte, err error) {
 		err = msgp.WrapError(err)
 		return
 	}
+	if uint64(totalValues) > uint64(len(bts)) {
+		// every event takes at least one byte: never allocate for more events than can follow
+		err = msgp.WrapError(msgp.ErrShortBytes)
+		return
+	}
 	b.events = make([]batchedEvent, totalValues)
 	for i := range b.events {
 		b.events[i].cfg = b.cfg
